@@ -1635,7 +1635,10 @@ impl World {
             let conn_over = self.fault_done.map_or(false, |f| matches!(f.0, FaultKind::Eof | FaultKind::Reset | FaultKind::Garbage))
                 || self.server.saw_unbind
                 || self.dropped_all;
-            if conn_over && self.driver_alive() {
+            // (a server that never closes after an unbind is outside the fairness assumption:
+            // there the driver may legitimately keep running until the handles are dropped)
+            let unfair = self.server.saw_unbind && !self.scn.server_closes_on_unbind && !self.dropped_all && self.fault_done.is_none();
+            if conn_over && self.driver_alive() && !unfair {
                 self.v("term:driver-alive", format!("the connection is over ({:?}, unbind={}, dropped={}) but drive() has not returned", self.fault_done, self.server.saw_unbind, self.dropped_all));
             }
             let io = self.io.lock().unwrap();
